@@ -1154,6 +1154,8 @@ def main(outfile):
     main_persist(os.path.join(os.path.dirname(outfile), 'TranslatedPersist.lean'))
     main_sim(os.path.join(os.path.dirname(outfile), 'TranslatedSim.lean'))
     main_ext(os.path.join(os.path.dirname(outfile), 'TranslatedExt.lean'))
+    import py2lean_fsm
+    py2lean_fsm.main_fsm(os.path.join(os.path.dirname(outfile), 'TranslatedFsm.lean'), sys.modules[__name__])
 
 
 if __name__ == '__main__':
